@@ -281,9 +281,13 @@ def run_scenario(kind, full, seed, index, max_delay, patch_name=None):
                     rig.run(2.0)  # too close to the time-out to tell a late confirmation from a timely one: let it pass
                     body += pup.drain() + pup.expire()
                 if pup.confirmable(b) == "confirm":
-                    if rng.random() < 0.3:
+                    queued = sum(1 for name, t in zip(api, tasks) if name.startswith("indicate") and not t.done())
+                    if rng.random() < 0.3 and queued <= 1:
                         # the confirmation arrives twice, back to back (both handed over in one loop iteration): the second
-                        # one is a confirmation nobody waits for, whatever the server has or has not cleaned up yet
+                        # one is a confirmation nobody waits for, whatever the server has or has not cleaned up yet.
+                        # Only when no further indication is queued behind the one being confirmed (a surplus confirmation
+                        # that crosses the next indication in flight would legitimately be taken as ITS confirmation), and
+                        # settled before anything else happens
                         def twice(b=b):
                             for _k in range(2):
                                 rig.log.append((rig.loop.time(), "tx", b, b"\x1e"))
@@ -293,6 +297,7 @@ def run_scenario(kind, full, seed, index, max_delay, patch_name=None):
                                     rig.bearers[b].write(b"\x1e")
 
                         rig.call(twice)
+                        rig.run(1.0)
                     else:
                         rig.send(b, b"\x1e")  # confirm the indication received
                 else:
